@@ -94,9 +94,9 @@ class C17(Prop):
         else:
             r = rng.random()
             if op == "crop_w":
-                w = rng.randint(0, n + 1)
+                w = rng.choice([n, n, rng.randint(0, n + 1), rng.randint(0, n + 1), rng.randint(0, n + 1)])  # w = n must be rejected
             elif op == "extend_w":
-                w = rng.randint(max(0, n - 1), n + 40)
+                w = rng.choice([n, n, rng.randint(max(0, n - 1), n + 40), rng.randint(max(0, n - 1), n + 40), rng.randint(n, n + 40)])
             else:
                 w = rng.choice([rng.randint(-1, 1), rng.randint(1, n), n, rng.randint(n, n + 40), rng.randint(1, n + 40)])
             c["width"] = w
